@@ -112,7 +112,13 @@ type sRun struct {
 // stores by a mid-transaction Commit inside a frame that later reverted and no journal entry outside reverted frames keeps
 // it dirty (so the final Commit does not visit it) - or the account was self-destructed and already deleted mid-transaction.
 func (s *sRun) known(a common.Address) bool {
-	return (s.flushedThenReverted[a] && s.db.journal.dirties[a] == 0) || s.deletedMidTx[a]
+	return (s.flushedThenReverted[a] && !s.dirty(a)) || s.deletedMidTx[a]
+}
+
+// dirty: the journal lists the account as changed (written so that it does not depend on how the journal counts)
+func (s *sRun) dirty(a common.Address) bool {
+	_, ok := s.db.journal.dirties[a]
+	return ok
 }
 
 func (s *sRun) msg(a common.Address, text string) string {
@@ -132,9 +138,10 @@ func (s *sRun) tag(what string) string {
 // frame executes a sequence of operations; an operation may be a nested call frame that returns or reverts.
 func (s *sRun) frame(depth int) {
 	// the operation kinds of this instance: t(ransfer) s(store) d(estruct) f(rame) c(ommit, what a precompile does first)
+	// n(ew account: a contract creation onto the pre-funded address sAddrs[1], which then has no storage)
 	kinds := zz.Param("kinds", "tsdf")
 	var ops []int
-	for i, c := range "tsdfc" {
+	for i, c := range "tsdfc_n" {
 		for _, k := range kinds {
 			if k == c {
 				ops = append(ops, i)
@@ -164,8 +171,8 @@ func (s *sRun) frame(depth int) {
 			a := sAddrs[zz.Choose(s.tag("addr"), s.nAddrs())]
 			k := sKeys[zz.Choose(s.tag("key"), len(sKeys))]
 			v := common.BigToHash(big.NewInt(int64(zz.Choose(s.tag("val"), zz.ParamInt("vals", 3)))))
-			if !s.db.Exist(a) {
-				continue // only existing accounts (contracts) execute SSTORE
+			if !s.db.Exist(a) || (sHasCreate() && a == sAddrs[1]) {
+				continue // only existing accounts (contracts) execute SSTORE; the CREATE target has no storage
 			}
 			s.db.SetState(a, k, v)
 			s.ref.st[a][k] = v
@@ -215,9 +222,16 @@ func (s *sRun) frame(depth int) {
 				zz.Assert(len(s.db.Logs()) == logs0 && s.db.GetRefund() == refund0, "after a revert logs and refund counter are as at the snapshot")
 				zz.Reach("reverted-frame")
 			}
+		case 6: // evm.create onto an address that already holds coins (a predictable CREATE2 address somebody funded): CreateAccount
+			// replaces the state object and carries the balance over; the value transfer to it is an ordinary t operation
+			a := sAddrs[1]
+			if !s.db.Exist(a) || s.db.HasSuicided(a) {
+				continue
+			}
+			s.db.CreateAccount(a)
 		case 4: // what every stateful precompile does first: flush the cached EVM state to the stores
 			for _, a := range sAddrs {
-				if s.db.journal.dirties[a] > 0 {
+				if s.dirty(a) {
 					if len(s.flushes) > 0 {
 						s.flushes[len(s.flushes)-1] = append(s.flushes[len(s.flushes)-1], a)
 					}
@@ -237,6 +251,15 @@ var sLast int
 
 func (s *sRun) lastChoice() int { return sLast }
 
+func sHasCreate() bool {
+	for _, k := range zz.Param("kinds", "tsdf") {
+		if k == 'n' {
+			return true
+		}
+	}
+	return false
+}
+
 func sSetup() (*sRun, *sLedger, *big.Int) {
 	l := newLedger()
 	ref := &sRef{bal: map[common.Address]*big.Int{}, st: map[common.Address]map[common.Hash]common.Hash{}, suicided: map[common.Address]bool{}}
@@ -248,6 +271,9 @@ func sSetup() (*sRun, *sLedger, *big.Int) {
 			l.acct[a] = &Account{Balance: bal, CodeHash: emptyCodeHash}
 			l.supply.Add(l.supply, bal)
 			ref.bal[a] = new(big.Int).Set(bal)
+			if sHasCreate() && i == 1 {
+				continue // the CREATE target: funded, no storage
+			}
 			l.storage[a] = map[common.Hash]common.Hash{sKeys[0]: common.BigToHash(big.NewInt(1))}
 			ref.st[a][sKeys[0]] = common.BigToHash(big.NewInt(1))
 		}
@@ -355,5 +381,38 @@ func VerifC10_NestedWriteSurvivesCommit() {
 		zz.Assert(l.storage[a][k] == v2, "a slot flushed mid-transaction and not written again keeps the value the nested execution left in the store")
 		zz.Reach("kept")
 	}
+	zz.Reach("end")
+}
+
+
+// VerifC10_WriteSurvivesInnerRevert: the EVM hook mints coins from the Transfer log of a registered token; the storage write
+// behind that log has to persist. An outer frame writes a slot of the token contract (the transfer to the module), a later
+// inner frame writes slots of the same contract and reverts, the caller swallows the revert, nothing else touches the
+// contract: after the final Commit the outer write is in the store.
+func VerifC10_WriteSurvivesInnerRevert() {
+	l := newLedger()
+	token := sAddrs[0]
+	l.acct[token] = &Account{Balance: new(big.Int), CodeHash: emptyCodeHash}
+	l.storage[token] = map[common.Hash]common.Hash{sKeys[0]: common.BigToHash(big.NewInt(100)), sKeys[1]: common.BigToHash(big.NewInt(7))}
+	db := New(sdk.Context{}, l, NewEmptyTxConfig(common.Hash{}))
+	outer := common.BigToHash(big.NewInt(int64(70 + zz.Choose("outerValue", 2))))
+	db.SetState(token, sKeys[0], outer) // balanceOf(sender) after the transfer to the module
+	n := 1 + zz.Choose("innerFrames", 2)
+	for i := 0; i < n; i++ {
+		id := db.Snapshot()
+		db.SetState(token, sKeys[zz.Choose("innerSlot"+string(rune('0'+i)), 2)], common.BigToHash(big.NewInt(int64(3+i))))
+		if zz.Choose("innerReverts"+string(rune('0'+i)), 2) == 1 {
+			db.RevertToSnapshot(id)
+			zz.Reach("inner-reverted")
+		} else {
+			zz.Reach("?inner-returned")
+			return // an inner frame that returns keeps its writes: VerifC05_StateDB's subject
+		}
+	}
+	if err := db.Commit(); err != nil {
+		panic(err)
+	}
+	zz.Assert(l.storage[token][sKeys[0]] == outer, "a write made before an inner frame that reverted is persisted by the final Commit")
+	zz.Assert(l.storage[token][sKeys[1]] == common.BigToHash(big.NewInt(7)), "nothing of the reverted inner frame is persisted")
 	zz.Reach("end")
 }
